@@ -362,7 +362,7 @@ class C42(Check):
     case_timeout = 25
 
     def strategy(self, tier):
-        blocks = st.lists(block_strategy(), min_size=2, max_size=14)
+        blocks = st.lists(block_strategy(), min_size=3, max_size=16)
         return st.fixed_dictionaries({"steps": blocks.map(lambda bs: [s for b in bs for s in b][:40])})
 
     def enumerate(self, tier):
@@ -383,7 +383,7 @@ class C42(Check):
         steps = (PRELUDE if not case.get("noprelude") else []) + [list(s) for s in case["steps"]]
         stmts = [["capi_env", raw]]
         for fn, iv, s, d in steps:
-            stmts.append(["capi", R(0), fn, ["list"] + [int(v) for v in iv], s, float(d)])
+            stmts.append(["capi", R(0), fn, ",".join(str(int(v)) for v in iv), s, float(d)])
         res = self.run(stmts)
         models = {}
         npre = NPRELUDE if not case.get("noprelude") else 0
